@@ -228,7 +228,8 @@ TrueText == <<116, 114, 117, 101>>
 FalseText == <<102, 97, 108, 115, 101>>
 AsContractKind(want, got) ==
   IF got.t # "s" THEN got
-  ELSE IF want.t = "i" /\ IsIntText(got.s) /\ IntText(IntOfText(got.s)) = got.s THEN VInt(IntOfText(got.s))
+  ELSE IF want.t \in {"i", "I"} /\ IsIntText(got.s) /\ IntText(IntOfText(got.s)) = got.s THEN VInt(IntOfText(got.s))
+  ELSE IF want.t \in {"i", "I"} /\ BigIntText(got.s) /\ CanonInt(got.s) = got.s THEN VBig(got.s)
   ELSE IF want.t = "b" /\ got.s \in {TrueText, FalseText} THEN VBool(got.s = TrueText)
   ELSE got
 \* engine rows with group columns brought to the kind the contract's rows have in that column
